@@ -210,7 +210,9 @@ pub struct Profile {
     /// share (in 1/32) of large *deceptive* table instances (see `F_DECEPTIVE`) solved with a cache: searches of hundreds of
     /// sub-problems whose fringe holds long runs of nodes invalidated by the cache before they are popped
     pub deceptive_share: u64,
-    /// (kept for compatibility) the 'weak' dominance rule of family T exposed finding H7 (fixed by 0354425): all campaigns use it now
+    /// family T with the 'weak' dominance rule (domination possible between equally good states, not preserved by
+    /// transitions): exposed finding H7 (fixed by 0354425) and exposes finding H13 (open); only the C10 campaign uses it - in
+    /// the other campaigns a wrong optimum under that rule would only repeat C10's finding
     pub weak_t_dominance: bool,
 }
 
@@ -252,7 +254,8 @@ pub fn random_spec(rng: &mut Rng, p: &Profile) -> CaseSpec {
         'K' => if large { if rng.chance(1, 2) { KSZ_LARGE_FEW } else { KSZ_LARGE } } else if medium { KSZ_MEDIUM } else if p.reconvergent { KSZ_FEWWEIGHTS } else if p.small && rng.chance(1, 2) { KSZ_SMALL } else { *rng.pick(&[KSZ_TINY, KSZ_TINY, KSZ_FEWWEIGHTS]) },
         _ => if large { PSZ_LARGE } else if medium { PSZ_MEDIUM } else if p.reconvergent { PSZ_SPARSE } else if p.small && rng.chance(1, 2) { PSZ_SMALL } else { *rng.pick(&[PSZ_TINY, PSZ_TINY, PSZ_SPARSE]) },
     };
-    let variant = random_variant(rng, p.with_dominance);
+    let mut variant = random_variant(rng, p.with_dominance);
+    if fam == 'T' && variant.dom == DomKind::Weak && !p.weak_t_dominance { variant.dom = DomKind::Exact; }
     let dd = if p.no_pooled { *rng.pick(&[DdKind::Lel, DdKind::Fc]) } else { *rng.pick(&DdKind::ALL) };
     let maxw = if large { 12 } else if medium { 8 } else if p.max_width == 0 { 4 } else { p.max_width };
     let width = match rng.below(10) {
